@@ -168,6 +168,17 @@ func runCaseInner(c Case) vlib.Result {
 			res.Err = fmt.Errorf("violation: %s; %v", m.FailReason, err)
 			return res
 		}
+		var wireCode int
+		if n, _ := fmt.Sscanf(m.FailReason, "illegal close code %d", &wireCode); n == 1 {
+			// the offending frame is a close frame that carries this illegal code on the wire (1005 included:
+			// it is the handler's value for "no code", and exactly therefore must never be taken from the wire)
+			for _, cc := range closeCalls {
+				if cc.code == wireCode {
+					res.Err = fmt.Errorf("a close frame carrying the illegal code %d was handed to the user close handler as a close with code %d instead of failing the connection", wireCode, cc.code)
+					return res
+				}
+			}
+		}
 		for _, cc := range closeCalls {
 			if vlib.CloseCodeClass(cc.code) == -1 && cc.code != 1005 && cc.code != 1002 {
 				res.Err = fmt.Errorf("user close handler invoked with the illegal close code %d", cc.code)
@@ -321,7 +332,11 @@ func closeCodeSpace() []Case {
 	var out []Case
 	for code := 0; code < 65536; code++ {
 		f := vlib.WSFrame{Fin: true, Op: vlib.OpClose, Masked: true, Key: 0x01020304, Payload: closePayload(code, []byte("x"))}
-		out = append(out, Case{ReceiverClient: false, Compression: false, CloseHandler: code%2 == 0, Frames: []vlib.WSFrame{f}})
+		out = append(out, Case{ReceiverClient: false, Compression: false, CloseHandler: true, Frames: []vlib.WSFrame{f}})
+		if code < 5100 {
+			// around the assigned ranges also without a user close handler (the library's default handler)
+			out = append(out, Case{ReceiverClient: false, Compression: false, CloseHandler: false, Frames: []vlib.WSFrame{f}})
+		}
 	}
 	return out
 }
@@ -331,7 +346,7 @@ func TestCheck(t *testing.T) {
 	vlib.RunCases(r, "header-space", headerSpace(), runCase, false)
 	r.MarkExhaustive("single-frame header space: FIN x RSV1-3 x 16 opcodes x mask x 3 length encodings x role x compression (6144 cases)")
 	vlib.RunCases(r, "close-codes", closeCodeSpace(), runCase, false)
-	r.MarkExhaustive("all 65536 close codes")
+	r.MarkExhaustive("all 65536 close codes (with a user close handler; codes below 5100 also with the default handler)")
 	vlib.RunCheck(r, vlib.Check[Case]{Name: "sequences", N: r.Pick(60000, 1500000), Gen: Gen, Run: runCase})
 	vlib.RunCases(r, "path-cells", pathCells(), runPath, true)
 	vlib.RunCheck(r, vlib.Check[PathCase]{Name: "paths", N: r.Pick(600, 12000), Gen: genPath, Run: runPath, Confirm: true, RecordCurrent: true})
